@@ -75,6 +75,22 @@ Proof.
 Qed.
 Print Assumptions C25_ratio_order.
 
+(* Distance to the real-number formula (partial, see below): if math.Pow's result for the
+   float arguments pp = RN(1 - c), theta = RN(1/RN n) is within eps of a real number Y -- the
+   intended instance is Y = Rpower (R64 pp) (R64 theta), the exact power -- then
+   threshold / 2^128 is within eps + 2^-53 + 2^-128 of 1 - Y.
+   PARTIAL with respect to DESIGN.md's C25_error_bound: the perturbation of the exact power
+   caused by rounding the ARGUMENTS (1 - c and 1/n) is not analysed in Coq; the harness measures
+   the end-to-end distance to 1 - (1-c)^(1/n) with 512-bit arithmetic on every case (bound 2^-50). *)
+Theorem C25_error_bound_partial : forall pow64 c1 c2 n Y eps,
+  pow_range pow64 -> (1 <= c1 < 2 ^ 64)%Z -> (1 <= c2 < 2 ^ 64)%Z -> (1 <= n < 2 ^ 63)%Z ->
+  (R64 (ratio_of c1 c2) <= 1)%R ->
+  (Rabs (R64 (pow64 (f64_sub f64_one (ratio_of c1 c2)) (theta_of n)) - Y) <= eps)%R ->
+  exists t, calculate_threshold pow64 c1 c2 n = Ok t /\
+    (Rabs (IZR (Z.of_N t) / IZR two128 - (1 - Y)) <= eps + bpow radix2 (-53) + / IZR two128)%R.
+Proof. exact error_bound_partial. Qed.
+Print Assumptions C25_error_bound_partial.
+
 (* the inputs CalculateThreshold rejects *)
 Theorem C25_errors : forall pow64 c1 c2 n,
   (c1 = 0%Z \/ c2 = 0%Z -> calculate_threshold pow64 c1 c2 n = Err err_zero) /\
